@@ -324,9 +324,14 @@ def _expected_keys(req):
     return out
 
 
+TEMPLATE_SINK = None  # set to a list to collect (function, template) of every path (used by C02)
+
+
 def check_kind_path(R, base, sig, p, node_prec, is_canary=False):
     c = p.ctx
     v = p.value
+    if TEMPLATE_SINK is not None:
+        TEMPLATE_SINK.append((base, v["res"]))
     from olvc import sym
     sym.set_ctx(c)
     try:
